@@ -508,7 +508,18 @@ func guardEdges(cond ssa.Value, env map[*ssa.Phi]phiVal, guards []Guard) (allowT
 			switch pv.kind {
 			case 1:
 				t := pv.b == pos
-				return t, !t
+				at, af := t, !t
+				// the phi itself may be the guarded quantity: a feasible edge that passes the guard is still barred
+				for _, g := range guards {
+					if g.Match(base) {
+						if g.Truthy == pos {
+							at = false
+						} else {
+							af = false
+						}
+					}
+				}
+				return at, af
 			case 2:
 				// phi truthy == (guardbase truthy == pv.b)
 				g := guards[pv.guard]
